@@ -61,6 +61,9 @@ def run(repo, rep, tier):
     from . import c20 as _c20
     L.borrow(repo, rep, "R06.3", "C20", _c20._lone_value,
              ("python-text-rewrites",))
+    # a node's settings (its default marker, its escape set) reach the
+    # engine that compiles its expression
+    L.engine_fields_rule(repo, rep, "R06.3")
     L.state_rule(repo, rep)
 
 
